@@ -13,7 +13,7 @@ def run(ctx):
     scen = []
     with quiet_stderr():
         for i in range(ctx.pick(14, 150)):
-            cc, ops = fs_drv.make_job(rng, ctx.seed * 1117 + i, nfiles=(2, 5))
+            cc, ops = fs_drv.make_job(rng, ctx.seed * 1117 + i, nfiles=(2, 5), digits=(i == 1))
             scen.append(fs_drv.stepped(fc.env_for(env, i), drf, cc, ops, "step%d" % i, rng))
     fc.account(ctx, scen, "a pool of long-lived DigitalRFReader objects created at different operations of the recording (before the "
                "channel exists, while the properties file is written, mid-file, after close) each run a pass (bounds, read of everything) "
